@@ -193,3 +193,47 @@ class ReachingDefs:
     def node_of(self, target: ast.AST) -> int | None:
         ns = self.cfg.nodes_containing(target)
         return ns[0].id if ns else None
+
+
+    # ------------------------------------------------------------------ copy propagation
+    def resolve(self, node_id: int, expr, depth: int = 5):
+        """``expr`` with local names replaced by what they are a plain copy of (single reaching
+        definition whose value is a name / attribute chain / constant), evaluated at ``node_id``.
+        `x = ctx._children; for c in x.values()`  ->  `ctx._children.values()`."""
+        import copy as _copy
+
+        rd = self
+
+        class R(ast.NodeTransformer):
+            def visit_Lambda(self, node):
+                return node
+
+            def visit_Name(self, node: ast.Name):
+                if not isinstance(node.ctx, ast.Load) or depth <= 0:
+                    return node
+                defs = rd.at(node_id, node.id)
+                if len(defs) != 1:
+                    return node
+                (d,) = defs
+                info = rd.def_info(d, node.id)
+                if not info or info[0] != "value" or not isinstance(info[1], ast.AST):
+                    return node
+                v = info[1]
+                if isinstance(v, ast.Await):
+                    return node
+                if _is_copyable(v):
+                    return rd.resolve(d, _copy.deepcopy(v), depth - 1)
+                return node
+
+        return R().visit(_copy.deepcopy(expr))
+
+    def text(self, node_id: int, expr) -> str:
+        return ast.unparse(self.resolve(node_id, expr)) if expr is not None else ""
+
+
+def _is_copyable(v) -> bool:
+    if isinstance(v, (ast.Name, ast.Constant)):
+        return True
+    if isinstance(v, ast.Attribute):
+        return _is_copyable(v.value)
+    return False
